@@ -206,5 +206,40 @@ def r05_4(ctx):
     return r
 
 
+def r05_5(ctx):
+    """AEAD SRTCP (RFC 7714 9.x): the tag must cover every received bit - the 8-byte header and the trailing
+    index word *as received* (E bit included) as associated data, everything between them as ciphertext. If
+    the receiver rebuilds the index word (masking or forcing a bit) that bit can be flipped by anyone."""
+    r = RuleResult("R05.5", "K4/dataflow", "SRTCP AEAD authenticates the received header, body and index word unmodified")
+    fn = "srtp::SrtpContext::unprotect_rtcp"
+    b = ctx.body(fn)
+    r.scope.append(fn)
+    dec = [(bi, t) for bi, t, p in b.calls() if p and p.split("::")[-1] in ("decrypt", "decrypt_in_place_detached", "decrypt_in_place")]
+    r.need("AEAD decrypt calls in unprotect_rtcp", len(dec), 1)
+    for bi, t in dec:
+        flows = []
+        for a in t["a"]:
+            flows += core.expand_vars(b, b.term_operand(a), 3)
+        subs = [x for f in flows for x in mir.walk(f)]
+
+        def is_pkt_slice(x, kind):
+            return x[0] == "call" and "::index" in x[1] and len(x[2]) == 2 and x[2][0] == ("arg", "packet") and \
+                x[2][1][0] == "agg" and x[2][1][1].endswith(kind)
+        header = any(is_pkt_slice(x, "RangeTo") and mir.int_value(x[2][1][3][0]) == 8 for x in subs)
+        body = any(is_pkt_slice(x, "Range") and mir.int_value(x[2][1][3][0]) == 8 for x in subs)
+        raw_word = any(is_pkt_slice(x, "RangeFrom") and x in flows for x in subs)
+        word = raw_word or any(x[0] == "call" and x[1].endswith("::to_be_bytes") and x[2] and x[2][0][0] == "call" and
+                               x[2][0][1].endswith("::from_be_bytes") and
+                               mir.has(x[2][0], lambda y: is_pkt_slice(y, "RangeFrom")) for x in subs)
+        missing = [n for n, ok in (("header packet[..8]", header), ("ciphertext packet[8..len-4]", body),
+                                   ("index word packet[len-4..] as received", word)) if not ok]
+        if not missing:
+            r.ok({"site": b.where(bi), "covers": "packet[..8] + received index word (aad), packet[8..len-4] (ciphertext)"})
+        else:
+            r.violate(fn, "aead:coverage", b.where(bi),
+                      "the AEAD input does not contain %s: those bits of a received SRTCP packet are not authenticated" % ", ".join(missing))
+    return r
+
+
 def run(ctx):
-    return [r05_1(ctx), r05_2(ctx), r05_3(ctx), r05_4(ctx)]
+    return [r05_1(ctx), r05_2(ctx), r05_3(ctx), r05_4(ctx), r05_5(ctx)]
